@@ -963,8 +963,11 @@ class RTCSctpTransport(AsyncIOEventEmitter):
         """
         Mark an incoming data TSN as received.
         """
-        # it's a duplicate
-        if uint32_gte(self._last_received_tsn, tsn) or tsn in self._sack_misordered:
+        # it's a duplicate (or it is not ahead of the cumulative TSN at all)
+        if (
+            not uint32_gt(tsn, self._last_received_tsn)
+            or tsn in self._sack_misordered
+        ):
             self._sack_duplicates.append(tsn)
             return True
 
